@@ -55,6 +55,12 @@ TQ(nu) == CASE nu = 1 -> <<1000000, 1839473, 6313752, 12706205, 63656741>>
             [] nu = 300 -> <<675308, 1002313, 1649949, 1967903, 2592316>>
             [] nu = 500 -> <<674981, 1001644, 1647907, 1964720, 2585698>>
             [] nu = 1000 -> <<674735, 1001143, 1646379, 1962339, 2580755>>
+            [] nu = 1001 -> <<674735, 1001142, 1646377, 1962337, 2580750>>
+            [] nu = 1200 -> <<674694, 1001059, 1646124, 1961943, 2579933>>
+            [] nu = 1500 -> <<674653, 1000976, 1645870, 1961547, 2579111>>
+            [] nu = 2000 -> <<674612, 1000892, 1645616, 1961151, 2578290>>
+            [] nu = 3000 -> <<674572, 1000809, 1645362, 1960755, 2577469>>
+            [] nu = 5000 -> <<674539, 1000742, 1645158, 1960439, 2576813>>
             [] OTHER -> <<>>
 \* a probability very close to one: p = 1 - k 2^-e = 1 - 5 * 2^-24 is a number of both scalar types,
 \* the argument (1+p)/2 = 1 - 5 * 2^-25 of the quantile only of f64 (an f32 computation of it is off
@@ -68,11 +74,11 @@ TQFine(nu) == CASE nu = 1 -> [v |-> 2136141486, d |-> 3]
                 [] nu = 6 -> [v |-> 245828110, d |-> 7]
                 [] OTHER -> [v |-> 0, d |-> 0]
 \* degrees of freedom beyond the lattice: reached by replicating the rows of an instance (ReplLaw)
-BigNus == {8, 10, 12, 15, 20, 24, 30, 31, 32, 40, 50, 60, 80, 100, 120, 200, 300, 500, 1000}
+BigNus == {8, 10, 12, 15, 20, 24, 30, 31, 32, 40, 50, 60, 80, 100, 120, 200, 300, 500, 1000, 1001, 1200, 1500, 2000, 3000, 5000}
 \* the quantile decreases with the degrees of freedom and stays above the normal quantile
-NormalQ == <<674490, 1000990, 1644854, 1959964, 2575829>>
+NormalQ == <<674490, 1000642, 1644854, 1959964, 2575829>>
 TQDecreasing == \A i \in 1..5 :
-   /\ \A n1, n2 \in (1..6) \cup BigNus : n1 < n2 => TQ(n1)[i] > TQ(n2)[i]
+   /\ \A n1, n2 \in (1..6) \cup BigNus : n1 < n2 => TQ(n1)[i] >= TQ(n2)[i]
    /\ \A n \in (1..6) \cup BigNus : TQ(n)[i] > NormalQ[i]
 \* exact check of the table row nu = 2 against the closed form, to 1e-6 relative:
 \*   |tq^2 (1 - p^2) - 2 p^2 10^12| small; in units that fit 32 bit: use p*1000 and tq/1000
@@ -180,7 +186,7 @@ ReplLaw(f, x, w, a, c, r0, K) ==
        /\ (Stationary(f, x, w, a, c, r0) => \A j \in 1..(f.M + f.P) : Dot(Col(HwK, j), rwK) = 0)
 \* multipliers that land on a tabulated number of degrees of freedom (at most the smallest and the largest)
 ReplChoices(f, x) ==
-  LET all == {K \in 2..260 : ReplNu(f, x, K) \in BigNus}
+  LET all == {K \in 2..2600 : ReplNu(f, x, K) \in BigNus}
   IN IF all = {} THEN {} ELSE {CHOOSE K \in all : \A L \in all : K <= L, CHOOSE K \in all : \A L \in all : K >= L}
 
 (* ---------------- theorems about the definitions ---------------- *)
